@@ -77,6 +77,12 @@ def slotTok : P Bool := do
 
 def St.slot (st : St) (isA : Bool) : Slot := if isA then st.a else st.b
 
+/-- the slot after an op of the model: an UNCHANGED state keeps the real iteration order the
+    harness last reported (it does not re-send a state that did not change), a changed one is
+    re-sent by the harness before its order matters -/
+def Slot.withState (sl : Slot) (s' : NMap RV) : Slot :=
+  if s' = sl.state then sl else { sl with state := s', order := NMap.keys s' }
+
 def nodeTok : P Nat := do
   let t ← tok
   if t == "a" then pure 0 else if t == "b" then pure 1 else if t == "c" then pure 2 else failure
@@ -225,7 +231,7 @@ def cmd (st : St) : P (St × String) := do
     | some rs =>
       let sl := st.slotN node
       let s' := applyDeltas sl.state rs.deltas
-      pure (st.setSlotN node { sl with state := s', order := NMap.keys s' }, showState "s" s')
+      pure (st.setSlotN node (sl.withState s'), showState "s" s')
   | "D" => do
     let isA ← slotTok
     pure (st, showDigest (slotDigest st (st.slot isA)))
@@ -247,8 +253,7 @@ def cmd (st : St) : P (St × String) := do
   | "SYNC" => do
     let limit := effectiveLimit currentLimitAtLeastOne (← nat)
     let (a', b') := syncRound keyLe st.hasher st.a.depth limit st.a.order st.b.order st.a.state st.b.state
-    let st' := { st with a := { st.a with state := a', order := NMap.keys a' },
-                         b := { st.b with state := b', order := NMap.keys b' } }
+    let st' := { st with a := st.a.withState a', b := st.b.withState b' }
     pure (st', showState "a" a' ++ " | " ++ showState "b" b')
   | "SYNC3" => do
     -- `run_full_anti_entropy` on three connected nodes: the pairs (a,b), (a,c), (b,c) in this order
@@ -256,9 +261,7 @@ def cmd (st : St) : P (St × String) := do
     let (a1, b1) := syncRound keyLe st.hasher st.a.depth limit st.a.order st.b.order st.a.state st.b.state
     let (a2, c1) := syncRound keyLe st.hasher st.a.depth limit (NMap.keys a1) st.c.order a1 st.c.state
     let (b2, c2) := syncRound keyLe st.hasher st.a.depth limit (NMap.keys b1) (NMap.keys c1) b1 c1
-    let st' := { st with a := { st.a with state := a2, order := NMap.keys a2 },
-                         b := { st.b with state := b2, order := NMap.keys b2 },
-                         c := { st.c with state := c2, order := NMap.keys c2 } }
+    let st' := { st with a := st.a.withState a2, b := st.b.withState b2, c := st.c.withState c2 }
     pure (st', showState "a" a2 ++ " | " ++ showState "b" b2 ++ " | " ++ showState "c" c2)
   | "HEAL" => do
     -- `heal_partition(a, b)`: a sync iff the pair was partitioned and `auto_anti_entropy` is on
@@ -268,8 +271,7 @@ def cmd (st : St) : P (St × String) := do
     let (a', b') := if was != 0 && auto != 0 then
         syncRound keyLe st.hasher st.a.depth limit st.a.order st.b.order st.a.state st.b.state
       else (st.a.state, st.b.state)
-    let st' := { st with a := { st.a with state := a', order := NMap.keys a' },
-                         b := { st.b with state := b', order := NMap.keys b' } }
+    let st' := { st with a := st.a.withState a', b := st.b.withState b' }
     pure (st', showState "a" a' ++ " | " ++ showState "b" b')
   | "PULL" => do
     let isA ← slotTok
@@ -278,7 +280,7 @@ def cmd (st : St) : P (St × String) := do
     let rq := st.slot isA
     let pr := st.slot (!isA)
     let (d, div, resp, r') := pull st.hasher rq.depth limit (full != 0) rq.order pr.order rq.state pr.state
-    let slot' : Slot := { rq with state := r', order := NMap.keys r' }
+    let slot' : Slot := rq.withState r'
     let st' := if isA then { st with a := slot' } else { st with b := slot' }
     pure (st', s!"differs={if d then 1 else 0} div=" ++ ",".intercalate (div.map toString)
       ++ " resp=" ++ ",".intercalate (resp.map (fun p => showKey p.1)) ++ " | " ++ showState (if isA then "a" else "b") r')
